@@ -19,6 +19,12 @@ func init() {
 	vfRegister("VfRIB_t2", VfRIB_t2)
 	vfRegister("VfRIB_tOrder", VfRIB_tOrder)
 	vfRegister("VfRIB_qEnum", VfRIB_qEnum)
+	vfRegister("VfRIB_t3e", VfRIB_t3e)
+}
+
+// t3e: every history of THREE symbolic operations from the empty RIB (next-hop, group, IPv4 entry).
+func VfRIB_t3e() {
+	vfRIBRun(vfRunCfg{pre: vfPreCfg{}, fixLow: true, steps: 3, members: 1, kinds: []int{vfKNH, vfKNHG, vfKV4}})
 }
 
 // qEnum: next-hop operations whose encapsulate-/decapsulate-header fields carry ANY int32 enum
